@@ -523,7 +523,7 @@ fn cmd_run(a: &Args, sweep: bool) -> i32 {
 
 /// C14 fault enumeration for one scenario: fail every sink call position in turn
 fn sweep_one(seed: u64, index: u64, prop: &str, shared: &Shared, out: &mut ThreadOut) {
-    let kind = (index % 10) as usize;
+    let kind = (index % gen::N_SCENARIO_KINDS as u64) as usize;
     let tr = gen::scenario(prng::mix(&[seed, 0x5ce0, index]), kind);
     let base = match judge_and_record(&tr, prop, index, "base", shared, out) {
         Some(r) => r,
@@ -534,6 +534,12 @@ fn sweep_one(seed: u64, index: u64, prop: &str, shared: &Shared, out: &mut Threa
         if base.failures.iter().any(|f| prop_matches(f.props, prop)) || base.harness_error.is_some() {
             return;
         }
+    }
+    // faults while the Cli is being constructed (the initial prompt: a write and a flush, more with short writes)
+    for call in 0..4 {
+        let mut v = tr.clone();
+        v.cfg.build_fault = Some(call);
+        judge_and_record(&v, prop, index, &format!("buildfault@{call}"), shared, out);
     }
     for (e, &n_calls) in base.calls_per_event.iter().enumerate() {
         for call in 0..n_calls {
@@ -735,7 +741,7 @@ fn cmd_digest(a: &Args) -> i32 {
             let mut i = t as u64;
             while i < runs {
                 let tr = if profs[0].name == "scen" {
-                    gen::scenario(prng::mix(&[seed, 0x5ce0, i]), (i % 10) as usize)
+                    gen::scenario(prng::mix(&[seed, 0x5ce0, i]), (i % gen::N_SCENARIO_KINDS as u64) as usize)
                 } else {
                     let pi = (i % profs.len() as u64) as usize;
                     gen::generate(&profs[pi], run_seed(seed, profs[pi].name, i))
